@@ -533,6 +533,7 @@ func specEncoding(data []byte, charset []int) (enc []int, end int, ok bool) {
 			}
 			if g != 0 {
 				enc[c] = g
+				used[c] = true
 			}
 		}
 	}
